@@ -51,6 +51,23 @@ PERMS = [0o644, 0o755, 0o600, 0o640, 0o444, 0o000, 0o777, 0o4755, 0o2755, 0o1777
 ROOT = os.geteuid() == 0
 
 
+def _probe_mknod():
+    import tempfile
+    d = tempfile.mkdtemp(prefix="bobverif-c11-probe-")
+    try:
+        os.mknod(os.path.join(d, "c"), stat.S_IFCHR | 0o600, os.makedev(1, 3))
+        os.mknod(os.path.join(d, "s"), stat.S_IFSOCK | 0o600)
+        return True
+    except OSError:
+        return False
+    finally:
+        import shutil
+        shutil.rmtree(d, ignore_errors=True)
+
+
+CAN_MKNOD = ROOT and _probe_mknod()
+
+
 def hx(b):
     return b.hex()
 
@@ -189,10 +206,10 @@ def gen_node(r, name, depth):
         return {"k": "link", "n": hx(name), "data": hx(gen_target(r))}
     if k < 0.91:
         return {"k": "fifo", "n": hx(name), "mode": gen_perm(r, False)}
-    if k < 0.95 and ROOT:
+    if k < 0.95 and CAN_MKNOD:
         return {"k": r.choice(["chr", "blk"]), "n": hx(name), "mode": gen_perm(r, False),
                 "rdev": os.makedev(r.choice([1, 7, 8, 259]), r.randrange(0, 4))}
-    if k < 0.97:
+    if k < 0.97 and CAN_MKNOD:
         return {"k": "sock", "n": hx(name), "mode": gen_perm(r, False)}
     return {"k": "file", "n": hx(name), "mode": gen_perm(r, False), "data": hx(gen_content(r))}
 
@@ -378,7 +395,7 @@ def create_ops(r, p, depth_ok=True):
         return ops, "create-dir"
     if k < 0.86:
         return [{"op": "symlink", "p": hx(p), "data": hx(gen_target(r))}], "create-link"
-    if k < 0.93 or not ROOT:
+    if k < 0.93 or not CAN_MKNOD:
         return [{"op": "mkfifo", "p": hx(p), "mode": gen_perm(r, False)}], "create-fifo"
     fmt = r.choice([stat.S_IFCHR, stat.S_IFBLK, stat.S_IFSOCK])
     return [{"op": "mknod", "p": hx(p), "fmt": fmt, "mode": gen_perm(r, False),
@@ -607,13 +624,24 @@ def ensure_coherent(root, seen, tries=40):
     return None
 
 
+class HistoryTimeout(BaseException):
+    """not an OSError/Exception: must not be swallowed by the code under test"""
+
+
 def run_history(job):
     """job = {"dir", "key", "mode": "oracle"|"corr", "steps": n} or a recorded {"init", "steps": [...]} (replay).
     Returns {"init", "steps", "results": [...], "violations": [...], "requests": [...]}"""
     import random
     import shutil
+    import signal
     from bob.utils import hashDirectory, hashPath, binStat
     quiet()
+
+    def on_alarm(signum, frame):
+        signal.setitimer(signal.ITIMER_REAL, 3.0)     # again, should the exception get lost
+        raise HistoryTimeout()
+    signal.signal(signal.SIGALRM, on_alarm)
+    signal.setitimer(signal.ITIMER_REAL, job.get("limit", 20.0))
     r = random.Random(job["key"])
     base = job["dir"]
     os.makedirs(base)
@@ -712,9 +740,13 @@ def run_history(job):
                             out["requests"].append({"req": {"op": "binstat", "m": st.st_mode,
                                                             "st": [st.st_ctime_ns, st.st_mtime_ns, st.st_dev, st.st_ino, st.st_size]},
                                                     "impl": binStat(full).hex(), "step": i})
+    except HistoryTimeout:
+        # (the unchanged hasher never blocks: it opens regular files only)
+        out["skipped"] = "a history did not finish within its time limit"
     except OSError as e:
         out["skipped"] = "file system operation failed: %s" % e
     finally:
+        signal.setitimer(signal.ITIMER_REAL, 0)
         try:
             rm(base.encode())
         except OSError:
@@ -743,15 +775,18 @@ def collect(ctx, results, tag):
 
 
 def oracle(ctx):
-    nh = ctx.scale(480, 16000)
+    nh = ctx.scale(480, 6000)
     jobs = [{"dir": os.path.join(ctx.tmp, "o%d" % i), "key": "%s-%d-oracle-%d" % (ctx.prop, ctx.seed, i), "mode": "oracle",
              "steps": ctx.subrng("olen", i).randrange(8, 15) if ctx.tier == "quick" else ctx.subrng("olen", i).randrange(10, 41)}
             for i in range(nh)]
     results = []
     chunk = 48
-    t_end = ctx.time_left() * 0.5      # the oracle may use half of what the build has left
+    # the oracle may use half of what the build has left, but always gets a minimum share: a slow build
+    # (loaded machine, regenerated constants) must not turn the check into a no-op
+    import time
+    t_stop = time.time() + max(ctx.time_left() * 0.5, ctx.scale(30, 300))
     for a in range(0, len(jobs), chunk):
-        if ctx.time_left() < t_end:
+        if time.time() > t_stop:
             ctx.notes["oracle_histories_cut"] = len(jobs) - a
             break
         results += ctx.parallel(run_history, jobs[a:a + chunk])
@@ -780,13 +815,15 @@ def oracle(ctx):
 
 
 def correspond(ctx):
-    nh = ctx.scale(400, 12000)
+    nh = ctx.scale(400, 4000)
     jobs = [{"dir": os.path.join(ctx.tmp, "c%d" % i), "key": "%s-%d-corr-%d" % (ctx.prop, ctx.seed, i), "mode": "corr",
              "steps": ctx.subrng("clen", i).randrange(8, 15) if ctx.tier == "quick" else ctx.subrng("clen", i).randrange(10, 41)}
             for i in range(nh)]
     chunk = 64
+    import time
+    t_stop = time.time() + max(ctx.time_left() - 15, ctx.scale(30, 300))
     for a in range(0, len(jobs), chunk):
-        if ctx.time_left() < 15:
+        if time.time() > t_stop:
             ctx.notes["corr_histories_cut"] = len(jobs) - a
             break
         results = ctx.parallel(run_history, jobs[a:a + chunk])
